@@ -6,6 +6,7 @@ import (
 	"net/http"
 	"sync"
 	"sync/atomic"
+	"time"
 
 	"github.com/renbou/grpcbridge/bridgelog"
 	"github.com/renbou/grpcbridge/grpcadapter"
@@ -137,6 +138,8 @@ func (b *TranscodedHTTPBridge) ServeHTTP(unwrappedRW http.ResponseWriter, r *htt
 	incoming.finish()
 
 	if err != nil {
+		// The body was possibly not read to its end (deadline, failed read): don't let an idle client hold the answer back.
+		boundRequestBodyDrain(unwrappedRW)
 		writeError(req.w, req.r, req.resptc, err)
 	}
 }
@@ -337,6 +340,18 @@ func appendHeaders(w http.ResponseWriter, md metadata.MD) {
 		k = http.CanonicalHeaderKey(k)
 		w.Header()[k] = append(w.Header()[k], v...)
 	}
+}
+
+// requestBodyDrainTimeout bounds how long net/http may wait for the rest of a request body once the call has ended.
+const requestBodyDrainTimeout = 100 * time.Millisecond
+
+// boundRequestBodyDrain is called when a call has ended (target status, deadline) and its answer is about to be written.
+// On HTTP/1 net/http reads the rest of the request body before it lets the first response byte out, which it does for
+// as long as the client keeps the body open: a client which has stopped sending would never get the answer.
+// With a read deadline whatever has already arrived is still consumed (so the connection isn't reset under a client
+// which has sent everything), but an idle client is waited for only this long.
+func boundRequestBodyDrain(w http.ResponseWriter) {
+	_ = http.NewResponseController(w).SetReadDeadline(time.Now().Add(requestBodyDrainTimeout))
 }
 
 func withCtx(ctx context.Context, f func() error) error {
